@@ -27,6 +27,8 @@ def family_slots(chk, families):
 def corr_slots(per_quick, per_thorough, tables=None, want_spec=True, family=None):
     def run(ctx, chk, broken):
         per = per_thorough if ctx.tier == 'thorough' else per_quick
+        if broken and not slots_from_broken(broken):
+            per = max(per, 40)     # a helper-level lemma broke: no slot is named, so search every slot more widely
         args = ['-seed', str(ctx.seed), '-per', str(per)]
         if tables:
             args += ['-tables', ','.join(tables)]
@@ -289,6 +291,72 @@ def corr_cim(ctx, chk, broken):
     return out, cov
 
 
+def corr_mirror(per_quick, per_thorough):
+    """C11: (a) the four index tables against model and reference; (b) real-vs-real: every DD / DDCB vector and its
+    FD / FDCB mirror (IX and IY exchanged) must give mirrored results with the same accesses (no reference involved)"""
+    base = corr_slots(per_quick, per_thorough, tables=['dd', 'fd', 'ddcb', 'fdcb'])
+
+    def mirror_vec(l):
+        t = l.split(' ')
+        t[0] = 'm' + t[0]
+        t[11], t[12] = t[12], t[11]
+        i = t.index('MO')
+        a, b = t[i + 1].split('=', 1)
+        assert b.startswith('dd')
+        t[i + 1] = a + '=fd' + b[2:]
+        return ' '.join(t)
+
+    def unmirror_result(r):
+        t = r.split(' ')
+        if len(t) < 16 or t[1] != 'ok':
+            return r
+        t[0] = t[0][1:]
+        t[12], t[13] = t[13], t[12]
+        j = t.index('LOG')
+        ev = t[j + 1].split(',')
+        if ev and ev[0].endswith('fd'):
+            ev[0] = ev[0][:-2] + 'dd'
+        ev = [('Wdd' + e[3:]) if e.startswith('Wfd') else e for e in ev]
+        t[j + 1] = ','.join(ev)
+        k = t.index('LH')
+        t[k + 1] = '*'
+        return ' '.join(t)
+
+    def run(ctx, chk, broken):
+        out, cov = base(ctx, chk, broken)
+        per = per_thorough if ctx.tier == 'thorough' else per_quick
+        v1 = chk.gen_vectors('slots', ['-seed', str(ctx.seed + 3), '-per', str(per), '-tables', 'dd,ddcb'])
+        lines = [l for l in v1.splitlines() if l.strip()]
+        mir = [mirror_vec(l) for l in lines]
+        res = {l.split(' ', 1)[0]: l for l in chk.run_go('\n'.join(lines + mir) + '\n')}
+        n_cmp = n_skip = 0
+        for l, m in zip(lines, mir):
+            vid = l.split(' ', 1)[0]
+            a, b = res.get(vid), res.get('m' + vid)
+            if a is None or b is None:
+                out.append({'stream': 'mirror', 'id': vid, 'vector': l, 'real': a, 'other': b})
+                continue
+            ta = a.split(' ')
+            if ta[1] == 'ok':
+                k = ta.index('LH')
+                ta[k + 1] = '*'
+            a2, b2 = ' '.join(ta), unmirror_result(b)
+            n_cmp += 1
+            if a2 != b2:
+                pc = l.split(' ')[14]
+                evs = a.split(' LOG ', 1)[1].split(',') if ' LOG ' in a else []
+                if any((e[0] in 'rw') and e[1:5] == pc for e in evs[1:]):
+                    n_skip += 1       # the instruction itself reads/writes the address of the prefix byte
+                    continue
+                out.append({'stream': 'mirror', 'id': vid, 'vector': l + '\n' + m, 'real': 'DD form: ' + a, 'other': 'FD form (un-mirrored): ' + b2})
+        cov['evaluations'] = cov.get('evaluations', 0) + 2 * len(lines)
+        cov['correspondence']['mirror_pairs'] = n_cmp
+        cov['correspondence']['mirror_pairs_skipped_prefix_observed'] = n_skip
+        cov['rule'] += ' | mirror: every DD/DDCB vector is also run as its FD/FDCB mirror (IX and IY exchanged, prefix byte replaced) on the REAL code and the results compared after un-mirroring (registers, memory, ordered log)'
+        return out, cov
+    return run
+
+
 PROPS = {
     'C01': {
         'targets': ['Z80.Props.C01'],
@@ -403,6 +471,15 @@ PROPS = {
                         'file system, flag parsing and bufio are exercised by the correspondence, not modelled',
                         'inputs whose end address does not fit in 16 bits are outside the property (the model records the uint16 wrap-around of the code)'],
         'explanation': 'for EVERY image, offset and name: cim2bin = FE + start/end/exec words + unmodified body, end = start+len-1 when it fits; cim2cas = sync header, ten D0, six-character name (truncated/space padded), sync header, words, unmodified body',
+    },
+    'C11': {
+        'targets': ['Z80.Props.C11'],
+        'count': HELPERS + ['Z80/Proofs/Obl/*_Xy_*.lean', 'Z80/Proofs/Tables/Dd.lean', 'Z80/Proofs/Tables/Fd.lean', 'Z80/Proofs/Tables/Ddcb.lean', 'Z80/Proofs/Tables/Fdcb.lean',
+                            'Z80/Proofs/Mirror.lean', 'Z80/Props/C11.lean'],
+        'correspond': corr_mirror(4, 60),
+        'assumptions': ['the statement is about the two switch arms after the prefix byte has been fetched (the prefix byte itself differs by definition); the warning of an unsupported opcode quotes the prefix byte',
+                        'user memory is a byte store'],
+        'explanation': 'Gen.executeOne_sw_fd c0 b (swapXY s) = (Gen.executeOne_sw_dd c0 b s) with IX/IY exchanged, for every second byte (CB sub-tables included) and every state, identical log; neither table reads or writes the other index register',
     },
     'C16': {
         'targets': ['Z80.Props.C16'],
